@@ -102,6 +102,12 @@ def run_case(ck, desc):
     spread = float((prod.max() - prod.min()) / abs(prod.mean()))
     if not ck.margin("rho*Bg-independent-of-p", spread, 1e-12):
         ck.violation("rho*Bg-independent-of-p", {"spread_rel": spread, "values": prod[:3]}, desc)
+    # the same product at and below standard pressure (the table builder starts at 10 psia)
+    for p_low in (5.0, 10.0, 14.7 * (1 - 1e-9), 14.7, 14.7 * (1 + 1e-9), 20.0):
+        if p_low / ppc > 0:
+            pl = float(gas.density_DAK(T, p_low, Tpc, ppc, sg)) * float(gas.b_factor_DAK(T, p_low, Tpc, ppc))
+            if not ck.margin("rho*Bg-independent-of-p (at / below standard pressure)", abs(pl / prod.mean() - 1), 1e-12):
+                ck.violation("rho*Bg-independent-of-p", {"p": p_low, "rho*Bg": pl, "elsewhere": prod.mean()}, desc)
     want = 28.9647 * sg * 14.7 / (10.7316 * (60 + 459.67) * 5.615)
     if not ck.margin("rho*Bg=standard-gas-mass", abs(prod.mean() / want - 1), 2e-4):
         ck.violation("rho*Bg=standard-gas-mass", {"got": prod.mean(), "want": want}, desc)
